@@ -341,6 +341,7 @@ func c12Alphabet(full bool) []vshOp {
 		{Side: "X", Op: "addk", Kind: "video", Dir: "recvonly"},
 		{Side: "X", Op: "addtft", Kind: "video", Dir: "sendrecv", N: 1},
 		{Side: "X", Op: "addtft", Kind: "video", Dir: "sendonly", N: 3},
+		{Side: "X", Op: "addtft", Kind: "video", Dir: "sendonly", N: -1},
 		{Side: "X", Op: "addtrack", Kind: "video", N: 2},
 		{Side: "X", Op: "rmtrack", Idx: 0},
 		{Side: "X", Op: "replace", Idx: 0, N: 0},
